@@ -14,6 +14,8 @@ type Options struct {
 	Deadline      time.Time // real-time cap (zero = none); hitting it yields Exhaustive=false, never a verdict
 	NoCache       bool      // disable happens-before caching (cross-validation)
 	NoEarlyClock  bool      // timers never overtake runnable threads
+	HoldBack      bool      // one more kind of deviation: hold a goroutine of the repository back until everybody else waits (see sched.HoldBack)
+	HoldLagNs     int64     // how far a held thread may lag behind in virtual time (see sched.HoldLagNs)
 	BoundAll      bool      // every departure from the default scheduler is a deviation (see sched.BoundAll)
 	HorizonClause string    // if set, hitting the step horizon is a violation of this clause (termination properties), not an engine problem
 	Trace         bool
@@ -129,8 +131,8 @@ type Judge func(e *Exec) (outcome string, digest string, fail *Failure)
 // Explore runs body under every schedule within opt and judges each complete execution.
 func Explore(opt Options, body func(), judge Judge) *Stats {
 	st := &Stats{Exhaustive: true, Outcomes: map[string]int64{}}
-	BoundAll, NoEarlyClock = opt.BoundAll, opt.NoEarlyClock
-	defer func() { BoundAll, NoEarlyClock = false, false }()
+	BoundAll, NoEarlyClock, HoldBack, HoldLagNs = opt.BoundAll, opt.NoEarlyClock, opt.HoldBack, opt.HoldLagNs
+	defer func() { BoundAll, NoEarlyClock, HoldBack, HoldLagNs = false, false, false, 0 }()
 	if opt.MaxSteps == 0 {
 		opt.MaxSteps = 200000
 	}
